@@ -42,6 +42,7 @@ pub fn variants(kind: &str) -> Vec<TlsMessage<'static>> {
         "ClientHello1" => vec![
             hs(H::ClientHello(TlsClientHelloContents::new(0x0303, &R1, Some(&B1), vec![], vec![], None))),
             hs(H::ClientHello(TlsClientHelloContents::new(0x0304, &R2, Some(&B32), vec![TlsCipherSuiteID(5)], vec![], Some(&B5)))),
+            hs(H::ClientHello(TlsClientHelloContents::new(0x0303, &R1, Some(&B0), vec![], vec![], None))),
         ],
         "ServerHello" => vec![
             hs(H::ServerHello(TlsServerHelloContents::new(0x0303, &R1, None, 0x2f, 0, None))),
